@@ -362,15 +362,28 @@ def write_cases(tier, seed):
                         ok = False
                 if ok:
                     yield (op, n, tuple(combo))
+    # required arguments at the edge of their range and falsy: cas token 0 (int, bytes, text) and 2**64-1, an empty value, the
+    # value 0, a delta of 0
+    for n in (1, 2):
+        for op, (req, opt) in WRITE_SIG.items():
+            for name, variants in (("cas", [0, b"0", "0", 2 ** 64 - 1, b"18446744073709551615"]), ("value", [b"", 0, "", False, 0.0])):
+                if name not in req:
+                    continue
+                for vi in range(len(variants)):
+                    for combo in ((("omit", None),) * len(opt), tuple(("pos", OPT_VALUES[o][-1]) for o, _d in opt), tuple(("kw", OPT_VALUES[o][1]) for o, _d in opt)):
+                        yield (op, n, combo, name, vi)
 
 
 def check_write(case):
-    op, n, combo = case
+    op, n, combo = case[:3]
     req, opt = WRITE_SIG[op]
     log = []
     caches = [Scripted(i, {K1}, log) for i in range(n)]
     fc = FallbackClient(caches)
     args = [(5 if (op in ("incr", "decr") and r == "value") else REQ_VALUES[r]) for r in req]
+    if len(case) > 3:
+        variants = {"cas": [0, b"0", "0", 2 ** 64 - 1, b"18446744073709551615"], "value": [b"", 0, "", False, 0.0]}[case[3]]
+        args[req.index(case[3])] = variants[case[4]]
     kwargs = {}
     intended = dict(zip(req, args))
     for (name, default), (mode, v) in zip(opt, combo):
@@ -663,9 +676,14 @@ def read_real_cases(tier, seed):
 
 
 def check_write_real(case):
-    op, n, combo = case
+    op, n, combo = case[:3]
     req, opt = WRITE_SIG[op]
     args = [(5 if (op in ("incr", "decr") and r == "value") else REQ_VALUES[r]) for r in req]
+    if len(case) > 3:
+        variants = {"cas": [0, b"0", "0", 2 ** 64 - 1, b"18446744073709551615"], "value": [b"", 0, "", False, 0.0]}[case[3]]
+        args[req.index(case[3])] = variants[case[4]]
+        if op in ("incr", "decr") and type(args[req.index(case[3])]) is not int:
+            return False, ["n/a"]
     kwargs = {}
     for (name, default), (mode, v) in zip(opt, combo):
         if mode == "pos":
